@@ -232,6 +232,9 @@ def node_phase(ctx):
         sc["router"] = "gossipsub" if i % 2 == 0 else "floodsub"
         sc["topicval"] = (i // 2) % 2 == 1
         sc["inline"] = (i // 4) % 2 == 1
+        # the accepting topic validator inline too: with "inline" the seqno validator is the FIRST of two inline
+        # validators and its Ignore must survive the later Accept (seeded C20-c2)
+        sc["topicinline"] = sc["topicval"] and (i // 8) % 2 == 1
         sc["vals"] = TABLES[0] if i % 3 else TABLES[1]
         for st in sc["steps"]:
             st.pop("exp", None)
@@ -307,12 +310,14 @@ def node_run(ctx, sel, info, need_coverage=True):
     # coverage on conforming scenarios: a replay that reached the validator after the seen cache forgot it, and was ignored
     hits = {}
     expired, hi, router, tv, inl = False, {}, "", False, False
+    two_inline = False
     for l, sc in zip(lines, scn_of):
         if sc in drift_scn:
             continue
         e = l["e"]
         if e == "reset":
             expired, hi, router, tv, inl = False, {}, l["router"], l["topicval"], l.get("inline", False)
+            two_inline = bool(inl and tv and l.get("topicinline", False))
         elif e == "expire":
             expired = True
         elif e == "inj":
@@ -324,7 +329,8 @@ def node_run(ctx, sel, info, need_coverage=True):
             elif l["val"] and l["rej"] == ["validation ignored"]:
                 if expired and 0 < l["s"] <= hi.get(l["a"], 0):
                     for k in ("replay-after-expiry-ignored", "replay-after-expiry-ignored-" + router) + (("replay-after-expiry-ignored-topicval",) if tv else ()) + \
-                            (("replay-after-expiry-ignored-inline",) if inl else ("replay-after-expiry-ignored-async",)):
+                            (("replay-after-expiry-ignored-inline",) if inl else ("replay-after-expiry-ignored-async",)) + \
+                            (("replay-after-expiry-ignored-two-inline",) if two_inline else ()):
                         hits[k] = hits.get(k, 0) + 1
                     if l["s"] == 3:
                         hits["replay-of-max-after-expiry"] = hits.get("replay-of-max-after-expiry", 0) + 1
@@ -341,7 +347,7 @@ def node_run(ctx, sel, info, need_coverage=True):
                 hits["burst-lower-lost-against-higher"] = hits.get("burst-lower-lost-against-higher", 0) + 1
     need = ["replay-after-expiry-ignored", "replay-after-expiry-ignored-gossipsub", "replay-after-expiry-ignored-floodsub",
             "replay-after-expiry-ignored-topicval", "replay-after-expiry-ignored-inline", "replay-after-expiry-ignored-async",
-            "duplicate-inside-seen-window", "delivered-and-forwarded", "burst",
+            "replay-after-expiry-ignored-two-inline", "duplicate-inside-seen-window", "delivered-and-forwarded", "burst",
             "seqno-zero-ignored-in-node"]
     missing = [n for n in need if not hits.get(n)]
     if need_coverage and missing and not ctx.violations:
